@@ -440,6 +440,233 @@ def text_seeds() -> dict[str, list[str]]:
     }
 
 
+def spelled_calls():
+    """(name, call) pairs: `call(S, T)` makes one valid call of a public function, passing every Octets argument through S and every String
+    (text-or-bytes) argument through T.  The harness runs each with S, T = identity and then with each other spelling of the same octets."""
+    import hashlib
+    from btclib import b32, b58, base58, bech32, bip322, hashes, var_bytes, var_int
+    from btclib.bip32 import bip32
+    from btclib.bip32.bip32 import BIP32KeyData
+    from btclib.block.block_header import BlockHeader
+    from btclib.curves import mult, secp256k1
+    from btclib.curves.sec_point import bytes_from_point, point_from_octets
+    from btclib.ecc import bms, dh, dsa, ssa, musig2, dleq
+    from btclib.mnemonic import bip39, electrum
+    from btclib.psbt.psbt import Psbt
+    from btclib.script import script, taproot
+    from btclib.script.script_pub_key import ScriptPubKey, type_and_payload
+    from btclib.script.witness import Witness
+    from btclib.to_prv_key import prv_keyinfo_from_prv_key
+    from btclib.to_pub_key import pub_keyinfo_from_key, point_from_pub_key
+    from btclib.tx import OutPoint, Tx, TxIn, TxOut
+
+    q = 0x1234567890ABCDEF1234567890ABCDEF1234567890ABCDEF1234567890ABCDEF
+    qb = q.to_bytes(32, "big")
+    Q = mult(q)
+    sec = bytes_from_point(Q, secp256k1)
+    secu = bytes_from_point(Q, secp256k1, compressed=False)
+    xonly = sec[1:]
+    msg = b"a message"
+    h = hashlib.sha256(msg).digest()
+    dsig = dsa.sign(msg, q).serialize()
+    ssig = ssa.sign(msg, q).serialize()
+    wif = b58.wif_from_prv_key(q)
+    addr = b58.p2pkh(wif)
+    bsig = bms.sign(msg, wif).serialize()
+    xprv = bip32.rootxprv_from_seed(bytes(range(32)))
+    xkey = BIP32KeyData.b58decode(xprv).serialize()
+    h160 = hashes.hash160(sec)
+    spk = bytes.fromhex("0014") + h160
+    tx = Tx(2, 0, [TxIn(OutPoint(bytes(range(32)), 1), b"", 0xFFFFFFFD)], [TxOut(1000, spk)])
+    txb = tx.serialize(include_witness=True)
+    hdr = bytes.fromhex("0100000000000000000000000000000000000000000000000000000000000000000000003ba3edfd7a7b12b27ac72c3e67768f617fc81bc3888a51323a9fb8aa4b1e5e4a29ab5f49ffff001d1dac2b7c")
+    psbt_b = Psbt.from_tx(tx).serialize()
+    calls = [
+        ("hashes.sha256", lambda S, T: hashes.sha256(S(msg))), ("hashes.hash160", lambda S, T: hashes.hash160(S(sec))), ("hashes.hash256", lambda S, T: hashes.hash256(S(msg))),
+        ("hashes.tagged_hash", lambda S, T: hashes.tagged_hash(b"TapLeaf", S(msg))),
+        ("hashes.reduce_to_hlen", lambda S, T: hashes.reduce_to_hlen(T(msg))),
+        ("dsa.sign", lambda S, T: dsa.sign(T(msg), S(qb)).serialize()), ("dsa.sign_", lambda S, T: dsa.sign_(S(h), S(qb)).serialize()),
+        ("dsa.verify", lambda S, T: dsa.verify(T(msg), S(sec), S(dsig))), ("dsa.verify uncompressed", lambda S, T: dsa.verify(T(msg), S(secu), S(dsig))),
+        ("dsa.verify_", lambda S, T: dsa.verify_(S(h), S(sec), S(dsig))), ("dsa.assert_as_valid", lambda S, T: dsa.assert_as_valid(T(msg), S(sec), S(dsig))),
+        ("dsa.recover_pub_keys", lambda S, T: dsa.recover_pub_keys(T(msg), S(dsig))), ("dsa.Sig.parse", lambda S, T: dsa.Sig.parse(S(dsig))),
+        ("ssa.sign", lambda S, T: ssa.sign(T(msg), S(qb), S(bytes(32))).serialize()), ("ssa.verify", lambda S, T: ssa.verify(T(msg), S(xonly), S(ssig))),
+        ("ssa.verify_", lambda S, T: ssa.verify_(S(h), S(xonly), S(ssig))), ("ssa.Sig.parse", lambda S, T: ssa.Sig.parse(S(ssig))),
+        ("ssa.batch_verify", lambda S, T: ssa.batch_verify([T(msg)], [S(xonly)], [S(ssig)])),
+        ("bms.sign", lambda S, T: bms.sign(T(msg), wif).serialize()), ("bms.verify", lambda S, T: bms.verify(T(msg), addr, S(bsig))), ("bms.Sig.parse", lambda S, T: bms.Sig.parse(S(bsig))),
+        ("point_from_octets", lambda S, T: point_from_octets(S(sec))), ("point_from_pub_key", lambda S, T: point_from_pub_key(S(sec))), ("pub_keyinfo_from_key", lambda S, T: pub_keyinfo_from_key(S(sec))),
+        ("pub_keyinfo_from_key xkey", lambda S, T: pub_keyinfo_from_key(T(bip32.xpub_from_xprv(xprv).encode()))),
+        ("prv_keyinfo_from_prv_key", lambda S, T: prv_keyinfo_from_prv_key(S(qb))), ("prv_keyinfo_from_prv_key xkey", lambda S, T: prv_keyinfo_from_prv_key(T(xprv.encode()))), ("prv_keyinfo_from_prv_key wif", lambda S, T: prv_keyinfo_from_prv_key(T(wif.encode()))),
+        ("b58.p2pkh", lambda S, T: b58.p2pkh(S(sec))), ("b58.p2wpkh_p2sh", lambda S, T: b58.p2wpkh_p2sh(S(sec))), ("b32.p2wpkh", lambda S, T: b32.p2wpkh(S(sec))),
+        ("b58.p2sh", lambda S, T: b58.p2sh(S(spk))), ("b32.p2wsh", lambda S, T: b32.p2wsh(S(spk))), ("b32.p2tr", lambda S, T: b32.p2tr(S(xonly))),
+        ("b58.address_from_h160", lambda S, T: b58.address_from_h160("p2pkh", S(h160))), ("b32.address_from_witness", lambda S, T: b32.address_from_witness(0, S(h160))),
+        ("b58.wif_from_prv_key", lambda S, T: b58.wif_from_prv_key(S(qb))),
+        ("base58.encode", lambda S, T: base58.encode(S(h160))), ("base58.decode", lambda S, T: base58.decode(T(base58.encode(h160)))),
+        ("b32.witness_from_address", lambda S, T: b32.witness_from_address(T(b32.p2wpkh(sec).encode()))),
+        ("b58.h160_from_address", lambda S, T: b58.h160_from_address(T(addr.encode()))), ("ScriptPubKey.from_address", lambda S, T: ScriptPubKey.from_address(T(addr.encode())).script),
+        ("var_int.parse", lambda S, T: var_int.parse(S(b"\xfd\x00\x01"))), ("var_bytes.parse", lambda S, T: var_bytes.parse(S(b"\x03abc"))), ("var_bytes.serialize", lambda S, T: var_bytes.serialize(S(msg))),
+        ("ScriptPubKey()", lambda S, T: ScriptPubKey(S(spk)).address), ("ScriptPubKey.p2pkh", lambda S, T: ScriptPubKey.p2pkh(S(sec)).script), ("ScriptPubKey.p2pk", lambda S, T: ScriptPubKey.p2pk(S(sec)).script),
+        ("ScriptPubKey.p2wpkh", lambda S, T: ScriptPubKey.p2wpkh(S(sec)).script), ("ScriptPubKey.p2sh", lambda S, T: ScriptPubKey.p2sh(S(spk)).script), ("ScriptPubKey.p2wsh", lambda S, T: ScriptPubKey.p2wsh(S(spk)).script),
+        ("ScriptPubKey.p2tr", lambda S, T: ScriptPubKey.p2tr(S(sec)).script), ("ScriptPubKey.p2ms", lambda S, T: ScriptPubKey.p2ms(1, [S(sec), S(secu)]).script),
+        ("ScriptPubKey.nulldata", lambda S, T: ScriptPubKey.nulldata(T(msg)).script), ("type_and_payload", lambda S, T: type_and_payload(S(spk))),
+        ("script.parse", lambda S, T: script.parse(S(spk))), ("script.serialize", lambda S, T: script.serialize(["OP_DUP", S(h160), "OP_CHECKSIG"])),
+        ("taproot.output_pubkey", lambda S, T: taproot.output_pubkey(S(sec), [(0xC0, ["OP_1"])])), ("taproot.leaf_hash", lambda S, T: taproot.leaf_hash(0xC0, S(b"\x51"))),
+        ("taproot.output_pubkey_from_merkle_root", lambda S, T: taproot.output_pubkey_from_merkle_root(S(xonly), S(h))),
+        ("Tx.parse", lambda S, T: Tx.parse(S(txb))), ("TxOut()", lambda S, T: TxOut(5, S(spk)).serialize()), ("OutPoint()", lambda S, T: OutPoint(S(h), 0).serialize()),
+        ("TxIn()", lambda S, T: TxIn(OutPoint(h, 0), S(b"\x51"), 1).serialize()), ("Witness()", lambda S, T: Witness([S(b"ab"), S(b"")]).serialize()), ("Witness.parse", lambda S, T: Witness.parse(S(b"\x01\x02ab"))),
+        ("BlockHeader.parse", lambda S, T: BlockHeader.parse(S(hdr)).hash), ("Psbt.parse", lambda S, T: Psbt.parse(S(psbt_b)).serialize()),
+        ("BIP32KeyData.parse", lambda S, T: BIP32KeyData.parse(S(xkey)).b58encode()), ("bip32.rootxprv_from_seed", lambda S, T: bip32.rootxprv_from_seed(S(bytes(range(32))))),
+        ("bip32.derive", lambda S, T: bip32.derive(T(xprv.encode()), "m/0h/1")), ("bip32.xpub_from_xprv", lambda S, T: bip32.xpub_from_xprv(T(xprv.encode()))),
+        ("bip39.mnemonic_from_entropy", lambda S, T: bip39.mnemonic_from_entropy(S(bytes(range(16))), "en")), ("electrum.mnemonic_from_entropy", lambda S, T: electrum.mnemonic_from_entropy("standard", S(bytes(range(1, 17))), "en")),
+        ("bms.verify text address", lambda S, T: bms.verify(T(msg), T(addr.encode()), S(bsig))),
+        ("musig2.key_agg", lambda S, T: musig2.key_agg([S(sec), S(bytes_from_point(mult(q + 1), secp256k1))]).Q), ("musig2.key_sort", lambda S, T: musig2.key_sort([S(sec), S(bytes_from_point(mult(q + 1), secp256k1))])),
+        ("bip322.message_hash", lambda S, T: bip322.message_hash(T(msg))) if hasattr(bip322, "message_hash") else ("hashes.sha1", lambda S, T: hashes.sha1(S(msg))),
+    ]
+    return calls
+
+
+def deep_texts() -> list[str]:
+    """Well-formed texts nested deeper than any bound, on the left and on the right: a parser answers or refuses, and never RecursionError."""
+    K = "c6047f9441ed7d6d3045406e95c07cd85c778e4b8cef3ca7abac09b95c709ee5"
+    out = []
+    for n in (129, 130, 1100, 4000):
+        out.append(f"tr({K}," + ("{pk(" + K + "),") * n + f"pk({K})" + "}" * n + ")")                     # right-nested tree
+        out.append(f"tr({K}," + "{" * n + f"pk({K})" + (",pk(" + K + ")}") * n + ")")                      # left-nested tree
+        out.append("and_v(v:pk(A)," * n + "pk(A)" + ")" * n)
+        out.append("or_i(" * n + "pk(A)" + ",0)" * n)
+        out.append("andor(pk(A),pk(B)," * n + "pk(C)" + ")" * n)
+        out.append("thresh(1," * n + "pk(A)" + ")" * n)
+        out.append("n" * n + ":pk(A)")
+        out.append("wsh(" + "and_v(v:pk(A)," * n + "pk(A)" + ")" * n + ")")
+        out.append("m" + "/0" * n)
+    return out
+
+
+def psbt_consumers() -> dict[str, Callable[[Any], Any]]:
+    """What an accepted PSBT is handed to: every role and every question a signer asks of it."""
+    import copy
+
+    from btclib.psbt import psbt as ps
+    from btclib.psbt.psbt_view import PsbtView
+
+    from .c18 import Kit
+
+    kit = Kit()
+    n_in = lambda p: range(min(len(p.inputs), 3))      # noqa: E731
+    return {
+        "finalize": lambda p: ps.finalize(copy.deepcopy(p)), "extract_tx(finalize)": lambda p: ps.extract_tx(ps.finalize(copy.deepcopy(p))), "combine([p, p])": lambda p: ps.combine([p, copy.deepcopy(p)]),
+        "prevouts": ps.prevouts, "ecdsa_sig_hash": lambda p: [ps.ecdsa_sig_hash(p, i) for i in n_in(p)], "taproot_sig_hash": lambda p: [ps.taproot_sig_hash(p, i) for i in n_in(p)],
+        "assert_signed": lambda p: ps.assert_signed(p, allow_partial=True), "assert_signatures_only(p, p)": lambda p: ps.assert_signatures_only(p, copy.deepcopy(p)),
+        "new_signers(p, p)": lambda p: ps.new_signers(p, copy.deepcopy(p)), "SoftwareSigner.sign_psbt": lambda p: kit.s1.sign_psbt(copy.deepcopy(p)),
+        "to_v2": lambda p: p.to_v2(), "to_v0": lambda p: p.to_v0(), "estimated_weight": lambda p: p.estimated_weight, "estimated_vsize": lambda p: p.estimated_vsize,
+        "PsbtView sig hashes": lambda p: (lambda v: [(v.ecdsa_sig_hash(i) if not p.inputs[i].taproot_internal_key else v.taproot_sig_hash(i)) for i in n_in(p)])(PsbtView(p.serialize(check_validity=False))),
+        "leaf_script": lambda p: [ps.leaf_script(pin, lh[32:]) for pin in p.inputs for lh in pin.taproot_script_spend_signatures],
+    }
+
+
+def psbt_objects(rnd: random.Random, thorough: bool) -> list[Any]:
+    """PSBTs a parser accepts: the BIP vectors, library-made ones over every input type (unsigned, signed), and copies whose script fields hold a boundary
+    script -- empty, one byte, a bare push, a truncated push -- with everything keyed by the script's hash re-keyed, so that the copy still parses."""
+    import copy
+
+    from btclib.hashes import hash160, sha256
+    from btclib.psbt.psbt import Psbt, combine
+    from btclib.script.script_pub_key import ScriptPubKey
+    from btclib.script.taproot import leaf_hash
+    from btclib.tx import TxOut
+
+    from . import c11
+    from .c18 import Kit
+
+    out: list[Any] = []
+    for b in c05.psbt_seeds()[: (40 if thorough else 12)]:
+        try:
+            out.append(Psbt.parse(b))
+        except Exception:  # noqa: BLE001
+            pass
+    kit = Kit()
+    c11.add_taproot_tree_kinds(kit)
+    made = []
+    for p0, _mix in c11.base_psbts(kit, rnd, thorough):
+        made.append(p0)
+        signed = p0
+        for sg in (kit.s1, kit.s2):
+            try:
+                signed = combine([signed, sg.sign_psbt(signed)])
+            except Exception:  # noqa: BLE001
+                pass
+        made.append(signed)
+    out += made
+    boundary = [b"", b"\x51", b"\xac", b"\x20" + bytes(32), b"\x20" + bytes(range(32)) + b"\xac", bytes(34), b"\x4c", b"\x4d\xff", b"\x6a", b"\x21" + bytes(33) + b"\xac"]
+    for p in made:
+        for k, pin in enumerate(p.inputs):
+            for x in boundary:
+                q = copy.deepcopy(p)
+                qin = q.inputs[k]
+                try:
+                    if qin.taproot_leaf_scripts:
+                        cb, (old, ver) = next(iter(qin.taproot_leaf_scripts.items()))
+                        qin.taproot_leaf_scripts = {cb: (x, ver)}
+                        lh_old, lh_new = leaf_hash(ver, old), leaf_hash(ver, x)
+                        qin.taproot_script_spend_signatures = {key[:32] + lh_new if key[32:] == lh_old else key: v for key, v in qin.taproot_script_spend_signatures.items()}
+                        if not qin.taproot_script_spend_signatures:
+                            qin.taproot_script_spend_signatures = {bytes(range(32)) + lh_new: bytes(64)}
+                        qin.taproot_key_spend_signature = b""
+                    elif qin.witness_script:
+                        qin.witness_script = x
+                        spk = bytes.fromhex("0020") + sha256(x)
+                        if qin.redeem_script:
+                            qin.redeem_script = spk
+                            spk = bytes.fromhex("a914") + hash160(qin.redeem_script) + b"\x87"
+                        qin.witness_utxo = TxOut(qin.witness_utxo.value if qin.witness_utxo else 1000, ScriptPubKey(spk, check_validity=False), check_validity=False)
+                        qin.non_witness_utxo = None
+                    elif qin.redeem_script:
+                        qin.redeem_script = x
+                        qin.witness_utxo = None
+                    else:
+                        continue
+                    out.append(Psbt.parse(q.serialize(check_validity=False), check_validity=False))
+                except Exception:  # noqa: BLE001   (a copy that does not even write or parse is not an accepted object)
+                    continue
+    return out
+
+
+def index_entry_points() -> dict[str, Callable[[Any], Any]]:
+    """Functions that take a position in something (an input of a psbt or of a transaction, a derivation index, a leaf of a branch): any integer
+    is either answered or refused, and never an IndexError from the list underneath."""
+    from btclib.bip32 import bip32
+    from btclib.descriptors import descriptors
+    from btclib.hashes import hash256, merkle_root_from_branch
+    from btclib.psbt import psbt as ps
+    from btclib.psbt.psbt_view import PsbtView
+    from btclib.script import sig_hash
+    from btclib.script.engine import verify_input
+    from btclib.script.script_pub_key import ScriptPubKey
+    from btclib.tx import OutPoint, Tx, TxIn, TxOut
+
+    spk = ScriptPubKey(bytes.fromhex("0014" + "11" * 20))
+    tx = Tx(2, 0, [TxIn(OutPoint(bytes(range(32)), k), b"", 0xFFFFFFFD) for k in range(2)], [TxOut(1000, spk), TxOut(2000, spk)])
+    prev = [TxOut(5000, spk), TxOut(6000, spk)]
+    p = ps.Psbt.from_tx(tx)
+    for pin, o in zip(p.inputs, prev):
+        pin.witness_utxo = o
+    raw = p.serialize()
+    xprv = bip32.rootxprv_from_seed(bytes(range(32)))
+    xpub = bip32.xpub_from_xprv(bip32.derive(xprv, "m/84h/0h/0h"))
+    d = descriptors.parse(f"wpkh({xpub}/0/*)")
+    h = bytes(range(32))
+    return {
+        "psbt.ecdsa_sig_hash": lambda i: ps.ecdsa_sig_hash(p, i), "psbt.taproot_sig_hash": lambda i: ps.taproot_sig_hash(p, i),
+        "PsbtView.input": lambda i: PsbtView(raw).input(i), "PsbtView.output": lambda i: PsbtView(raw).output(i), "PsbtView.ecdsa_sig_hash": lambda i: PsbtView(raw).ecdsa_sig_hash(i),
+        "PsbtView.taproot_sig_hash": lambda i: PsbtView(raw).taproot_sig_hash(i),
+        "sig_hash.legacy": lambda i: sig_hash.legacy(b"\x51", tx, i, 1), "sig_hash.segwit_v0": lambda i: sig_hash.segwit_v0(b"\x51", tx, i, 1, 5000),
+        "sig_hash.taproot": lambda i: sig_hash.taproot(tx, i, prev, 0, 0, b"", b""), "sig_hash.from_tx": lambda i: sig_hash.from_tx(prev, tx, i, 1), "engine.verify_input": lambda i: verify_input(prev, tx, i),
+        "descriptor.script_pub_key": lambda i: d.script_pub_key(i), "descriptors.at_index": lambda i: descriptors.at_index(d, i), "bip32.derive": lambda i: bip32.derive(xpub, [i]),
+        "bip32.derive xprv": lambda i: bip32.derive(xprv, [i]), "merkle_root_from_branch": lambda i: merkle_root_from_branch(h, [h, h[::-1]], i, hash256),
+        "OutPoint": lambda i: OutPoint(h, i), "TxIn sequence": lambda i: TxIn(OutPoint(h, 0), b"", i), "TxOut value": lambda i: TxOut(i, spk), "Tx version": lambda i: Tx(i, 0, tx.vin, tx.vout),
+        "Tx lock_time": lambda i: Tx(2, i, tx.vin, tx.vout),
+    }
+
+
 def predicates() -> dict[str, Callable[[Any], Any]]:
     """verify-style predicates: each takes one hostile argument in the position that is attacker-controlled."""
     from btclib.curves import mult
@@ -721,14 +948,20 @@ def check(run: Run) -> None:
     # 3. text
     teps = text_entry_points()
     tseeds = text_seeds()
-    texts = list(HOSTILE_TEXT)
+    texts = list(HOSTILE_TEXT) + deep_texts()
     for group in tseeds.values():
         for s in group:
             texts += mutate_text(s, rnd, 40 if thorough else 10)
     for ep, f in sorted(teps.items()):
+        exercised = 0
         for t in texts:
             oc, val = classify(lambda: f(t))
             rec("parser", "text:" + ep, t, oc, val)
+            # what a text parser accepted is handed on too (written back, measured, spelled): an object built from hostile text must not fail there
+            if oc == "returned" and val is not None and type(val).__module__.startswith("btclib") and exercised < (40 if thorough else 12):
+                exercised += 1
+                for cn, oc2, v2 in exercise(val):
+                    rec("consumer", cn, t, oc2, v2)
     # 4. from_dict with type-confused JSON
     for name, (fd, d) in sorted(dict_entry_points().items()):
         exercised = 0
@@ -771,6 +1004,40 @@ def check(run: Run) -> None:
             elif oc == "refused":
                 oc = "leaked:refused-instead-of-False"
             rec("predicate", ep, str(k)[:40], oc, val)
+    # 5b. accepted PSBTs through every role
+    pcons = psbt_consumers()
+    pobjs = psbt_objects(rnd, thorough)
+    for p_ in pobjs:
+        tag = p_.serialize(check_validity=False).hex()
+        for cn, cf in pcons.items():
+            oc, val = classify(lambda: cf(p_))
+            rec("consumer", "psbt:" + cn, tag, oc, val)
+    # 6. positions: any integer where a position is asked for
+    hostile_pos = [0, 1, 2, 3, -1, -2, 255, 256, 2**16, 2**31 - 1, 2**31, 2**32 - 1, 2**32, 2**63, 2**64, -(2**31), -(2**63) - 1, True, 10**30]
+    for ep, f3 in sorted(index_entry_points().items()):
+        for k in hostile_pos:
+            oc, val = classify(lambda: f3(k))
+            rec("parser", "index:" + ep, repr(k), oc, val)
+    # 7. spellings: the octets of a valid call given as a bytearray and as a memoryview answer as the bytes do
+    def _norm(x: Any) -> Any:
+        if isinstance(x, (bytearray, memoryview)):
+            return bytes(x)
+        if isinstance(x, (list, tuple)):
+            return tuple(_norm(y) for y in x)
+        return x
+
+    n_spelled = 0
+    for name, call in spelled_calls():
+        oc0, v0 = classify(lambda: call(lambda b: b, lambda b: b))
+        if oc0 != "returned":
+            raise tlc.TLCFailure(f"C19 harness: the reference call {name} is not valid any more ({oc0}: {v0})")
+        for vn, conv in (("bytearray", bytearray), ("memoryview", memoryview)):
+            oc, val = classify(lambda: call(conv, conv))
+            same = oc == "returned" and _norm(val) == _norm(v0)
+            rec("variant", f"spelling:{name} as {vn}", vn, oc, val, {"same": same})
+            n_spelled += 1
+            if oc == "returned" and not same:
+                leaks.setdefault(f"spelling:{name} as {vn}|differs", {"ep": name, "outcome": "differs", "detail": f"{str(_norm(val))[:80]} instead of {str(_norm(v0))[:80]}", "input": vn})
     # ---- reader sessions on a caller's stream against StreamSession ----
     sevs = stream_sessions(run, thorough, rnd)
     opens = [k for k, e in enumerate(sevs) if e["ev"] == "open"]
@@ -784,7 +1051,7 @@ def check(run: Run) -> None:
                       f"the specification of the stream does not allow it (objects {sevs[o]['objs']})", {"session": session, "rejected_event": e})
     run.section("stream_sessions", {"sessions": len(opens), "events": len(sevs), "message_sessions": sum(1 for k in opens if sevs[k]["rewinds"])})
     # ---- the trace against the outcome alphabet ----
-    compact = [{k: v for k, v in e.items() if k in ("kind", "outcome", "consumed", "needed")} for e in evs]
+    compact = [{k: v for k, v in e.items() if k in ("kind", "outcome", "consumed", "needed", "same")} for e in evs]
     results, bad, diag = events.validate("C19Trace", compact, batch=40000)
     for r in results:
         run.tlc(r, "V C19Trace")
@@ -793,12 +1060,16 @@ def check(run: Run) -> None:
         if "consumed" in e and e["outcome"] == "returned" and e["consumed"] != e["needed"]:
             run.violation(f"hostile|{e['ep']}|stream position", f"{e['ep']}: read {e['consumed']} bytes off the stream for an object of {e['needed']}", {"event": e})
             continue
+        if e.get("same") is False and e["outcome"] == "returned":
+            lk = leaks.get(f"{e['ep']}|differs", {})
+            run.violation(f"hostile|{e['ep']}|differs", f"{e['ep']}: {lk.get('detail')}", {"ep": e["ep"], "outcome": "differs", "input": lk.get("input"), "detail": lk.get("detail")})
+            continue
         lk = leaks.get(f"{e['ep']}|{e['outcome']}", {})
         run.violation(f"hostile|{e['outcome']}", f"{e['ep']}: {e['outcome']} ({lk.get('detail')}) on {str(lk.get('input'))[:160]}",
                       {"ep": e["ep"], "outcome": e["outcome"], "input": lk.get("input"), "detail": lk.get("detail")})
     run.sample({"encoder corpus": [b.hex() for b, a in corpus if a][:2] + [b.hex() for b, a in corpus if not a][:3]})
     run.sample({"event": evs[n_corpus + 10]})
-    by_kind = {k: sum(1 for e in evs if e["kind"] == k) for k in ("parser", "predicate", "consumer")}
+    by_kind = {k: sum(1 for e in evs if e["kind"] == k) for k in ("parser", "predicate", "consumer", "variant")}
     run.section("calls", {"by_kind": by_kind, "entry_points": len({e["ep"] for e in evs}), "entry_points_without_a_valid_seed": unseeded, "encoder_corpus": len(corpus),
                           "outcomes": {o: sum(1 for e in evs if e["outcome"].split(":")[0] == o) for o in ("returned", "refused", "true", "false", "leaked", "timeout")}})
     run.count(evaluations=len(evs) + len(sevs), validated=len(evs) + len(sevs), nontrivial=len({(e["ep"], e["outcome"]) for e in evs}) + by_kind["consumer"])
